@@ -109,7 +109,7 @@ def marshal_low_contract():
             return True
         return neg(ok(c))
 
-    return Contract(FRM + '_marshal', [('frame_type', T.int), ('channel_id', T.int | T.bool | T.none | T.str), ('payload', T.bytes)], cases=[
+    return Contract(FRM + '_marshal', [('frame_type', T.int), ('channel_id', T.int | T.bool | T.none | T.str), ('payload', T.bytes | T.bytearray)], cases=[
         Case('frame', when=ok, returns=lambda c: wire.frame(c.st, c.frame_type, c.channel_id, c.payload)),
         Case('refused', when=bad, raises=struct.error),
     ], doc='C04: general frame format; out-of-range type/channel/size refused with struct.error')
@@ -164,7 +164,7 @@ def content_body_contracts():
         return conj(in_range(c.channel_id, 0, 65535), lt(wire.blen(c.st, v), 2 ** 32))
 
     out.append(Contract(FRM + '_marshal_content_body_frame',
-                        [('value', body_self(T.bytes)), ('channel_id', T.int)],
+                        [('value', body_self(T.bytes | T.bytearray)), ('channel_id', T.int)],
                         cases=[Case('frame', when=okb, returns=lambda c: wire.frame(c.st, 3, c.channel_id, c.value.attrs['value'])),
                                Case('refused', when=lambda c: neg(okb(c)), raises=struct.error)]))
 
@@ -439,7 +439,7 @@ def frame_marshal_contract():
     base, body, header, heartbeat, exceptions = _classes()
     PH = 'pamqp.header.ProtocolHeader'
     three = {'major_version': T.int, 'minor_version': T.int, 'revision': T.int}
-    fv = (mk_obj(PH, three) | body_self(T.bytes) | mk_obj('pamqp.heartbeat.Heartbeat', {})
+    fv = (mk_obj(PH, three) | body_self(T.bytes | T.bytearray) | mk_obj('pamqp.heartbeat.Heartbeat', {})
           | T.int | T.str | T.none | T.bytes | T.foreign)
 
     def kind(c):
